@@ -278,6 +278,37 @@ func genOffsets(lo, hi int, yield func(m *wire.Msg, nameAt int)) {
 	}
 }
 
+// genOffsetsTyped: like genOffsets, but the record that starts at the swept offset is one of every
+// name-bearing type, its RDATA names carry a suffix not seen earlier in the message, and the records
+// behind it own names below that suffix: whether those may be written as pointers depends on where
+// exactly the RDATA names of the typed record stand relative to the 16384 pointer limit.
+func genOffsetsTyped(lo, hi int, yield func(m *wire.Msg, nameAt int, t uint16)) {
+	for _, t := range nameTypes() {
+		for at := lo; at <= hi; at++ {
+			m := &wire.Msg{ID: 3, Flags: 0x8400}
+			m.Q = []wire.Question{{Name: msgNames[1], Type: 16, Class: 1}}
+			qlen := wire_nameLen(msgNames[1]) + 4
+			rd := at - 12 - qlen - (1 + 10)
+			var chunks [][]byte
+			for left := rd; left > 0; {
+				c := 256
+				if left < c {
+					c = left
+				}
+				chunks = append(chunks, bytes.Repeat([]byte{'t'}, c-1))
+				left -= c
+			}
+			filler := wire.RR{Name: nil, Type: 16, Class: 1, TTL: 1, Vals: []wire.Val{{L: chunks}}}
+			m.Sec[0] = []wire.RR{filler,
+				mkRR(t, enum.L("late", "zone"), enum.L("x", "fresh", "tld"), enum.L("y", "other", "tld")),
+				mkRR(2, enum.L("fresh", "tld"), enum.L("q", "x", "fresh", "tld")),
+				mkRR(15, enum.L("a", "x", "fresh", "tld"), enum.L("other", "tld")),
+				mkRR(5, enum.L("w", "late", "zone"), enum.L("b", "y", "other", "tld"))}
+			yield(m, at, t)
+		}
+	}
+}
+
 func wire_nameLen(l [][]byte) int {
 	n := 1
 	for _, x := range l {
